@@ -52,6 +52,11 @@ def _norm_fingerprint(fn_node):
     if node.body and isinstance(node.body[0], ast.Expr) and isinstance(node.body[0].value, ast.Constant) \
             and isinstance(node.body[0].value.value, str):
         node.body = node.body[1:]
+    # two-armed ifs in one polarity: `if not c: B else: A` reads as `if c: A else: B`
+    for n in ast.walk(node):
+        if isinstance(n, ast.If) and n.orelse:
+            while isinstance(n.test, ast.UnaryOp) and isinstance(n.test.op, ast.Not):
+                n.test, n.body, n.orelse = n.test.operand, n.orelse, n.body
     names = {}
 
     def nm(x):
